@@ -142,14 +142,16 @@ def desc_term(desc):
             cstr(f["name"]), KIND[kind], copt(f.get("xml_name"), cstr), copt(f.get("namespace"), cstr),
             ptype(f.get("type")), cbool(lst), cbool(optional), cbool(tok), cbool(f.get("nillable", False)),
             copt(f.get("sequence"), lambda n: f"{n}%N"), copt(f.get("wrapper"), cstr), copt(f.get("format"), cstr),
-            copt(f["default"], prim) if has_default else "None", cbool(required), cbool(f.get("mixed", False)), chs]) + ")")
+            copt(f["default"], prim) if has_default else "None", cbool(required), cbool(f.get("mixed", False)), chs,
+            copt(f.get("gen_name") if f.get("gen_name") != f["name"] else None, cstr)]) + ")")
 
     def klass(c):
         m = c["meta"]
         return ("(mk_cdesc " + " ".join([
             f"{cid[c['name']]}%N", cstr(c["name"]), copt(m.get("name"), cstr), copt(m.get("namespace"), cstr),
             cbool(m.get("nillable", False)), copt(c.get("base"), lambda b: f"{cid[b]}%N"),
-            clist([field(f) for f in c["fields"]], str, "fdesc")]) + ")")
+            clist([field(f) for f in c["fields"]], str, "fdesc"),
+            copt(c.get("gen_name") if c.get("gen_name") != c["name"] else None, cstr)]) + ")")
 
     def enum(e):
         ms = clist([f"({cstr(n)}, {prim(v)})" for n, v in e["members"]], str, "(str * prim)")
@@ -247,6 +249,36 @@ def inherit_models(r, n):
     return out
 
 
+# ------------------------------------------------------------------ compound fields over primitive choices
+def prim_choice_models(r, n):
+    """Root = one compound field whose choices are primitive types in every order (int before bool,
+    bool before int, float, Decimal, XmlDate, str last or first); values of every listed type."""
+    out = []
+    VAL = {"int": lambda: {"__p__": "int", "v": r.choice([0, 1, 7, -3])}, "bool": lambda: {"__p__": "bool", "v": r.random() < 0.5},
+           "float": lambda: {"__p__": "float", "v": r.choice(["1.5", "0.0", "1.0"])}, "Decimal": lambda: {"__p__": "Decimal", "v": "2.50"},
+           "XmlDate": lambda: {"__p__": "XmlDate", "v": "2001-02-28"}, "str": lambda: {"__p__": "str", "v": r.choice(["abc", "x y", "n/a"])}}
+    for _ in range(n):
+        tps = r.sample(["int", "bool", "float", "Decimal", "XmlDate", "str"], r.choice([2, 3, 4]))
+        if r.random() < 0.5:
+            tps = [t for t in tps if t not in ("int", "bool")]
+            pair = ["int", "bool"] if r.random() < 0.6 else ["bool", "int"]
+            k = r.randint(0, len(tps))
+            tps = tps[:k] + pair + tps[k:]
+        if "str" in tps:                      # a str choice first would take every text
+            tps = [t for t in tps if t != "str"] + ["str"]
+        is_list = r.random() < 0.7
+        root = {"name": "P", "meta": r.choice([{}, {"namespace": "urn:p"}]), "base": None,
+                "fields": [{"name": "v", "kind": "Elements", "list": is_list,
+                            "choices": [{"name": "c_" + t.lower(), "type": ("prim", t)} for t in tps]}]}
+        desc = {"module_ns": None, "enums": [], "root": "P", "slices": ["prim-choices"], "classes": [root]}
+        cases = []
+        for _ in range(4):
+            val = [VAL[r.choice(tps)]() for _ in range(r.choice([1, 2, 3, 4]))] if is_list else VAL[r.choice(tps)]()
+            cases.append({"recipe": {"__cls__": "P", "fields": {"v": val}}, "ignore": False, "derived": None, "hostile": False})
+        out.append({"desc": desc, "src": genmodels.render_source(desc), "classes": ["P"], "enums": [], "cases": cases})
+    return out
+
+
 # ------------------------------------------------------------------ sequence groups
 def sequence_models(r, n):
     """Classes with a sequence group of 2-3 adjacent list Element fields (optionally a scalar member, a
@@ -299,6 +331,78 @@ def sequence_models(r, n):
                     vals[f["name"]] = None if r.random() < 0.4 else item(f, False)
             cases.append({"recipe": {"__cls__": "S", "fields": vals}, "ignore": False, "derived": None, "hostile": False})
         out.append({"desc": desc, "src": genmodels.render_source(desc), "classes": [c["name"] for c in classes], "enums": [], "cases": cases})
+    return out
+
+
+def apply_gen_names(models, res):
+    """what the name generators in force return for the Python names (computed by the implementation
+    side with the real generator functions) becomes part of the description (fd_gen_name / cd_gen_name)"""
+    for m, rm in zip(models, res["models"]):
+        gn = rm.get("gen_names") or {}
+        for c in m["desc"]["classes"]:
+            g = gn.get(c["name"]) or {}
+            if "__class__" in g:
+                c["gen_name"] = g["__class__"]
+            for f in c.get("fields", []):
+                if f["name"] in g:
+                    f["gen_name"] = g[f["name"]]
+
+
+# ------------------------------------------------------------------ name generators x explicit names
+GEN_IMPORT = "from xsdata.utils.text import camel_case, pascal_case, kebab_case, snake_case, screaming_snake_case, mixed_snake_case\n"
+GENERATORS = ["camel_case", "pascal_case", "kebab_case", "snake_case", "screaming_snake_case"]
+
+
+def generator_models(r, n):
+    """Name generators (class-level Meta.element_name_generator / attribute_name_generator and
+    context-level) combined with EXPLICIT names that are not fixed points of the generator (fields,
+    wrappers, Meta.name): explicit names are written verbatim, generators only see Python names."""
+    import re
+    out = []
+    EXPL = ["Order-Id", "ship_to", "ItemName", "qty_Total", "line.items", "X1"]
+    PYN = ["order_id", "shipTo", "line_items", "qty", "unit_price", "isOpen", "sku_code"]
+    for _ in range(n):
+        names = r.sample(PYN, 5)
+        fields = []
+        for i, nm in enumerate(names):
+            kind = r.choice(["Element", "Element", "Attribute"])
+            f = F(nm, kind, ("prim", r.choice(["str", "int"])), optional=True)
+            if kind == "Element" and r.random() < 0.35:
+                f = F(nm, "Element", ("prim", "str"), list=True, wrapper=r.choice(["Line-Items", "wrap_list", "Ws"]) + str(i))
+            if r.random() < 0.5:
+                f["xml_name"] = r.choice(EXPL) + str(i)
+            fields.append(f)
+        if r.random() < 0.4:
+            fields.append(F("body_text", "Text", ("prim", "str"), optional=True))
+        else:
+            fields.append(F("child_node", "Element", ("class", "inner_part"), optional=True,
+                            **({"xml_name": "Child-Node"} if r.random() < 0.5 else {})))
+        meta = {}
+        if r.random() < 0.5:
+            meta["name"] = r.choice(["purchase_order", "Purchase-Order", "PO_1"])
+        if r.random() < 0.5:
+            meta["namespace"] = "urn:g"
+        lvl = r.choice(["class", "context", "both"])
+        ctxg = {}
+        if lvl in ("class", "both"):
+            meta["element_name_generator"] = r.choice(GENERATORS)
+            if r.random() < 0.7:
+                meta["attribute_name_generator"] = r.choice(GENERATORS)
+        if lvl in ("context", "both"):
+            ctxg = {"element": r.choice(GENERATORS)}
+            if r.random() < 0.6:
+                ctxg["attribute"] = r.choice(GENERATORS)
+        inner = {"name": "inner_part", "meta": r.choice([{}, {"name": "Inner-P"}]), "base": None,
+                 "fields": [F("part_no", "Attribute", ("prim", "int"), optional=True), F("partLabel", "Element", ("prim", "str"), optional=True, **({"xml_name": "Part_Label"} if r.random() < 0.5 else {}))]}
+        root = {"name": "order_doc", "meta": meta, "base": None, "fields": fields}
+        desc = {"module_ns": None, "enums": [], "root": "order_doc", "slices": ["generators"], "classes": [root, inner]}
+        src = GEN_IMPORT + genmodels.render_source(desc)
+        src = re.sub(r"(element_name_generator|attribute_name_generator) = '(\w+)'", r"\1 = \2", src)
+        cases = []
+        for _ in range(3):
+            rec = genmodels.gen_instance(r, desc, "order_doc")
+            cases.append({"recipe": rec, "ignore": False, "derived": None, "hostile": False})
+        out.append({"desc": desc, "src": src, "classes": ["order_doc", "inner_part"], "enums": [], "cases": cases, "context_generators": ctxg})
     return out
 
 
@@ -467,7 +571,7 @@ def witness_models():
 def run(ck: Check):
     obligations, discharged, axioms = standard_proof_step(
         ck, extra_targets=["Model/EventGenCorr.vo", "Model/BuilderCorr.vo"])
-    n_models = ck.n(200, 3000)
+    n_models = ck.n(150, 3000)
     per_model = ck.n(6, 8)
     wit = witness_models()
     models = []
@@ -475,10 +579,11 @@ def run(ck: Check):
         models.append({"desc": desc, "src": genmodels.render_source(desc), "classes": [c["name"] for c in desc["classes"]],
                        "enums": [], "cases": [{"recipe": rec, "ignore": False, "derived": None, "hostile": False}],
                        "witness": cls})
-    models += hierarchy_models(ck.rng, ck.n(40, 600)) + sequence_models(ck.rng, ck.n(40, 600)) + inherit_models(ck.rng, ck.n(40, 600))
+    models += hierarchy_models(ck.rng, ck.n(40, 600)) + sequence_models(ck.rng, ck.n(40, 600)) + inherit_models(ck.rng, ck.n(40, 600)) + generator_models(ck.rng, ck.n(40, 600)) + prim_choice_models(ck.rng, ck.n(30, 500))
     models += gen_models(ck, n_models, per_model)
-    res = run_impl("impl_eventgen.py", {"models": [{k: m[k] for k in ("src", "classes", "enums", "cases")} for m in models]},
+    res = run_impl("impl_eventgen.py", {"models": [{k: m.get(k) for k in ("src", "classes", "enums", "cases", "context_generators")} for m in models]},
                    timeout=1500)
+    apply_gen_names(models, res)
     unsupported = [(i, m["unsupported"]) for i, m in enumerate(res["models"]) if m["unsupported"]]
     skipped = sum(1 for m in res["models"] for c in m["cases"] if c.get("skip"))
     for i, why in unsupported[:3]:
